@@ -968,7 +968,10 @@ fn gen_c03(tier: &str, r: &Rng, o: &mut Out<'_>) {
                 } else if prior == 2 && plan.pre.len() + 1 + min_first.min(sec.len()) <= 183 {
                     // previous section completed by the pointer_field bytes of our first packet
                     let tail = 1 + r.below(30) as usize;
-                    let prev = rand_section(r, syntax, 150 + tail + r.below(20) as usize);
+                    let mut prev = rand_section(r, syntax, 150 + tail + r.below(20) as usize);
+                    // the tail carried in front of the next section start is section data like any
+                    // other, also when it looks like stuffing (all 0xff / all 0x00; seeded change C03-r11m2)
+                    if r.chance(1, 3) { let n = prev.len(); let v = if r.chance(3, 4) { 0xff } else { 0x00 }; for b in prev[n - tail..].iter_mut() { *b = v; } }
                     let head_len = prev.len() - tail;
                     let pp = SecPlan { pre: vec![], first: head_len, conts: vec![], trailing_stuff: false };
                     let mut all = packetize_section(r, 0x100, &mut cc, &prev[..head_len], &pp);
